@@ -1,4 +1,5 @@
 import Thanos.Model.Reloader
+import Thanos.Model.WatchLoop
 import Thanos.Lemmas.Reloader
 import Thanos.Generated.Facts
 /-
@@ -456,6 +457,82 @@ theorem hashFrame_injective : ∀ (fs gs : List (List Nat × List Nat)),
     rw [this]
     congr 1
     exact Prod.ext h1 h3
+
+/-! ### the Watch loop: every change is followed by an apply within one watch interval -/
+
+namespace Watch
+
+/-- **bounded response**: in any run of the loop (timer armed no further than W ahead), if the loop
+    is still running at some time ≥ τ (the process was not stopped), then an `apply` starts in
+    `[τ, τ + W]`: whatever changed on disk up to τ is read by an apply at most one watch interval
+    later — through the file watcher if it notified, through the timer if it did not. -/
+theorem apply_within_interval (W : Nat) : ∀ (ws : List Wake) (now deadline τ : Nat),
+    Valid W now deadline ws → deadline ≤ now + W → now ≤ τ → (∃ w ∈ ws, τ ≤ w.time) →
+    ∃ t ∈ applies ws, τ ≤ t ∧ t ≤ τ + W := by
+  intro ws
+  induction ws with
+  | nil => intro now d τ _ _ _ h; obtain ⟨w, hw, _⟩ := h; simp at hw
+  | cons w ws ih =>
+    intro now d τ hv hd hn hex
+    obtain ⟨h1, h2, _, h4⟩ := hv
+    by_cases hτ : τ ≤ w.time
+    · exact ⟨w.time, by simp [applies], hτ, by omega⟩
+    · obtain ⟨w', hw', hle⟩ := hex
+      rcases List.mem_cons.mp hw' with rfl | hw'
+      · exact absurd hle hτ
+      · obtain ⟨t, ht, hb⟩ := ih w.time (w.time + W) τ h4 (Nat.le_refl _) (by omega) ⟨w', hw', hle⟩
+        exact ⟨t, by simp only [applies, List.map_cons, List.mem_cons]; right; exact ht, hb⟩
+
+/-- every wake-up is an apply: the loop never wakes without applying (no early `continue`/`return`
+    between the select and the apply other than the cancelled context) -/
+theorem one_apply_per_wake (ws : List Wake) : (applies ws).length = ws.length := by simp [applies]
+
+/-- consecutive applies are at most one watch interval apart -/
+theorem applies_dense (W : Nat) : ∀ (ws : List Wake) (now deadline : Nat), Valid W now deadline ws →
+    deadline ≤ now + W → (applies ws).Pairwise (· ≤ ·) ∧ ∀ t ∈ (applies ws).head?, t ≤ now + W := by
+  intro ws
+  induction ws with
+  | nil => intro _ _ _ _; simp [applies]
+  | cons w ws ih =>
+    intro now d hv hd
+    obtain ⟨h1, h2, _, h4⟩ := hv
+    obtain ⟨p, _⟩ := ih w.time (w.time + W) h4 (Nat.le_refl _)
+    refine ⟨?_, by simp [applies]; omega⟩
+    simp only [applies, List.map_cons, List.pairwise_cons]
+    refine ⟨?_, p⟩
+    intro t ht
+    -- every later wake is no earlier than this one
+    clear p ih
+    have : ∀ (ws : List Wake) (n d' : Nat), Valid W n d' ws → ∀ t ∈ ws.map (·.time), n ≤ t := by
+      intro ws
+      induction ws with
+      | nil => intro _ _ _ t ht; simp at ht
+      | cons v vs ihv =>
+        intro n d' hv' t ht
+        obtain ⟨g1, _, _, g4⟩ := hv'
+        rcases List.mem_cons.mp ht with rfl | ht
+        · exact g1
+        · exact Nat.le_trans g1 (ihv v.time _ g4 t ht)
+    exact this ws w.time _ h4 t ht
+
+-- non-vacuity: W = 10, timer armed at 10; a notify at 3, the timer at 13, a notify at 20
+example : Valid 10 0 10 [⟨3, .notify⟩, ⟨13, .tick⟩, ⟨20, .notify⟩] := by
+  simp [Valid]
+example : applies [⟨3, .notify⟩, ⟨13, .tick⟩, ⟨20, .notify⟩] = [3, 13, 20] := by decide
+
+end Watch
+
+/-- Regenerated obligations: the decision skeleton of the Watch loop — the select over the timer
+    and the watcher, the only exit guarded by `ctx.Err() != nil`, then unconditionally: cancel, re-arm
+    with `r.watchInterval`, `r.apply`, and `continue` on error (the loop of `Watch.Valid`) — and of
+    the retry loop (call, return on success, otherwise wait for the stop channel or the tick). -/
+theorem C47_watch_loop_fact : Thanos.Facts.reloaderWatchLoop =
+    ["select{recv applyCtx.Done()|recv r.watcher.notify}", "if ctx.Err() != nil", "applyCancel()", "wg.Wait()",
+     "return", "applyCancel()", "context.WithTimeout(ctx, r.watchInterval)",
+     "if err := r.apply(applyCtx); err != nil", "r.apply(applyCtx)", "continue"] := by decide
+
+theorem C47_retry_loop_fact : Thanos.Facts.retryLoop =
+    ["if err = f(); err == nil", "f()", "return", "select{recv stopc|recv tick.C}", "return"] := by decide
 
 /-- Regenerated obligations: whether the entries loop of `apply` tracks every output as soon as it
     is written (selects `Driver/Misc.lean: rlTrack`), and the condition under which `apply` does
